@@ -245,7 +245,16 @@ func (fr *Frame) step(st *State, ins ssa.Instruction) bool {
 		p := fr.val(st, in.Addr)
 		v := fr.val(st, in.Val)
 		fr.checkPtr(st, in.Addr, p, in.Pos())
-		fr.atAnchors(st, in, false, nil)
+		{
+			ex := map[string]Val{"value": v}
+			if fa, ok := in.Addr.(*ssa.FieldAddr); ok {
+				ob := fr.val(st, fa.X)
+				ob.T = fa.X.Type()
+				ex["object"] = ob
+			}
+			ex["value"] = func() Val { vv := v; vv.T = in.Val.Type(); return vv }()
+			fr.atAnchors(st, in, false, ex)
+		}
 		if fa, ok := in.Addr.(*ssa.FieldAddr); ok {
 			fr.guardedWrite(st, fa, fr.val(st, fa.X), in.Pos())
 		}
@@ -415,6 +424,7 @@ func (fr *Frame) step(st *State, ins ssa.Instruction) bool {
 		k := fr.val(st, in.Key)
 		v := fr.val(st, in.Value)
 		fr.nopanic(st, "mapwrite("+fr.describe(in.Map)+")", sNot(sEq(m.S, "0")), in.Pos(), "assignment to entry in nil map")
+		fr.guardedMapAccess(st, in.Map, in.Pos(), "write")
 		fr.atAnchors(st, in, false, map[string]Val{"key": k, "value": v, "map": m})
 		mt := in.Map.Type().Underlying().(*types.Map)
 		if dk, vk, _, _, ok := r.mapKeys(mt); ok && isScalar(k.K) && isScalar(v.K) {
@@ -442,7 +452,10 @@ func (fr *Frame) step(st *State, ins ssa.Instruction) bool {
 	case *ssa.Send:
 		ch := fr.val(st, in.Chan)
 		v := fr.val(st, in.X)
+		ch.T = in.Chan.Type()
+		v.T = in.X.Type()
 		fr.atAnchors(st, in, false, map[string]Val{"chan": ch, "value": v})
+		fr.chanSendCheck(st, in, fr.anchorName(in, "send"), ch, v)
 		fr.chanOp(st, in, ch, "send", true)
 		fr.nopanic(st, fr.anchorName(in, "send")+"-on-closed", sNot(sSelect(r.get(st, "g|$closed"), ch.S)), in.Pos(), "send on closed channel")
 		return true
@@ -558,6 +571,9 @@ func (fr *Frame) unop(st *State, in *ssa.UnOp) bool {
 		if z := r.zeroVal(et); isScalar(z.K) && isScalar(v.K) {
 			r.facts.Assert(sImp(sNot(okv.S), sEq(v.S, z.S)))
 		}
+		x.T = in.X.Type()
+		v.T = et
+		r.assume(st, sImp(sNot(sSelect(r.get(st, "g|$closed"), x.S)), okv.S))
 		fr.chanRecvAssume(st, x, v, okv)
 		if in.CommaOk {
 			fr.set(in, Val{K: KTuple, Fs: []Val{v, okv}})
@@ -896,6 +912,9 @@ func (fr *Frame) lookup(st *State, in *ssa.Lookup) {
 	x := fr.val(st, in.X)
 	k := fr.val(st, in.Index)
 	mt, ok := in.X.Type().Underlying().(*types.Map)
+	if ok {
+		fr.guardedMapAccess(st, in.X, in.Pos(), "read")
+	}
 	if !ok {
 		// string index
 		fr.nopanic(st, "index("+fr.describe(in.X)+")", fmt.Sprintf("(and (<= 0 %s) (< %s (slen %s)))", k.S, k.S, x.S), in.Pos(), "string index out of range")
@@ -1029,11 +1048,18 @@ func (fr *Frame) selectOp(st *State, in *ssa.Select) {
 			names[fmt.Sprintf("recv%d", i)] = v
 			sub := st.clone()
 			sub.pc = sAnd(st.pc, sEq(idx, fmt.Sprint(i)))
+			ch.T = s.Chan.Type()
+			v.T = et
+			r.assume(sub, sImp(sNot(sSelect(r.get(st, "g|$closed"), ch.S)), okv))
 			fr.chanRecvAssume(sub, ch, v, boolVal(okv))
 		} else {
-			names[fmt.Sprintf("sent%d", i)] = fr.val(st, s.Send)
+			sv := fr.val(st, s.Send)
+			sv.T = s.Send.Type()
+			names[fmt.Sprintf("sent%d", i)] = sv
 			sub := st.clone()
 			sub.pc = sAnd(st.pc, sEq(idx, fmt.Sprint(i)))
+			ch.T = s.Chan.Type()
+			fr.chanSendCheck(sub, in, fr.anchorName(in, "select")+fmt.Sprintf(".send%d", i), ch, sv)
 			fr.r.require(sub, "nopanic", fr.oblFunc(), fr.oblName(fr.anchorName(in, "select")+fmt.Sprintf(".send%d-on-closed", i)),
 				sNot(sSelect(r.get(st, "g|$closed"), ch.S)), fr.nopanicTags(), in.Pos(), "send on closed channel in select")
 		}
